@@ -26,7 +26,7 @@ def one(d):
             fired.setdefault(v[0], set()).add(p)
         errs += es
     own = any(prop in ps for ps in fired.values())
-    return d.name, prop, own, {k: sorted(v) for k, v in fired.items()}, errs[:2]
+    return d.name, prop, own, {k: sorted(v) for k, v in fired.items()}, errs[:12]
 
 if __name__ == "__main__":
     dirs = sorted(str(p) for p in (ROOT / "seeded").glob("*") if (p / "patch.diff").exists())
